@@ -474,7 +474,7 @@ func (c20) Eval(c *Chooser, env *Env) *Outcome {
 				kinds = append(kinds, TFNoNewline)
 			}
 			k := kinds[c.Int("fault.kind", len(kinds))]
-			if c.Weighted("fault.flood", 1, 24) {
+			if c.Weighted("fault.flood", 1, 60) {
 				k = TFFlood
 			}
 			if k == TFNullElement || k == TFNoNewline || k == TFFlood {
